@@ -26,37 +26,22 @@ Theorem pth_element_spec :
 Proof. exact pth_element_ok. Qed.
 Print Assumptions pth_element_spec.
 
-(* (2) _pth_interval for p + 2 < n: terminates in bounds, permutation, returns the
-   p-th and (p+1)-th order statistics. *)
+(* (2) _pth_interval for EVERY p + 1 < n (the last pair p = n-2 included - the
+   `il == jr` exit assigns only the output that is still missing, commit c821d37):
+   terminates in bounds, permutation, returns the p-th and (p+1)-th order
+   statistics. *)
 Theorem pth_interval_spec :
-  forall (F : nat) (x : list Z) (p : nat), S (S p) < length x -> length x <= F ->
+  forall (F : nat) (x : list Z) (p : nat), S p < length x -> length x <= F ->
   exists x' am aM, pth_interval F x p = Ok (x', am, aM) /\ Permutation x' x /\
                    is_kth x p am /\ is_kth x (S p) aM.
 Proof. exact pth_interval_ok. Qed.
 Print Assumptions pth_interval_spec.
 
-(* (3) _pth_interval for every p + 1 < n (including the last pair p = n-2): always
-   terminates in bounds with a permutation and the right UPPER value; the lower
-   value is right OR (only when p = n-2) was overwritten with the upper one by
-   the `il == jr` exit.  _partial: the full statement (am is the p-th order
-   statistic) is false for p = n-2, see (4). *)
-Theorem pth_interval_last_pair_partial :
-  forall (F : nat) (x : list Z) (p : nat), S p < length x -> length x <= F ->
-  exists x' am aM, pth_interval F x p = Ok (x', am, aM) /\ Permutation x' x /\
-    is_kth x (S p) aM /\ (is_kth x p am \/ (S (S p) = length x /\ am = aM)).
-Proof. exact pth_interval_gen. Qed.
-Print Assumptions pth_interval_last_pair_partial.
-
-(* (4) FINDING: for p = n-2 the code returns am = aM = the maximum. *)
-Theorem pth_interval_last_pair_refuted :
-  exists (x : list Z) (p : nat), S p < length x /\
-  exists x' am aM, pth_interval (length x) x p = Ok (x', am, aM) /\ ~ is_kth x p am.
-Proof.
-  exists [1; 2]%Z, 0. split; [simpl; lia|].
-  exists [1; 2]%Z, 2%Z, 2%Z. split; [vm_compute; reflexivity|].
-  intros K. apply is_kthb_spec in K. vm_compute in K. discriminate.
-Qed.
-Print Assumptions pth_interval_last_pair_refuted.
+(* (3) the former finding (median of [1;2] was 2): the last pair is now right *)
+Example pth_interval_last_pair :
+  pth_interval 2 [1; 2]%Z 0 = Ok ([1; 2]%Z, 1%Z, 2%Z) /\
+  pth_interval 4 [1; 2; 4; 8]%Z 2 = Ok ([1; 2; 4; 8]%Z, 4%Z, 8%Z).
+Proof. split; vm_compute; reflexivity. Qed.
 
 (* (5) order statistics defined by counting are unique and are members. *)
 Theorem order_statistic_unique :
@@ -121,11 +106,10 @@ Proof.
 Qed.
 Print Assumptions quantile_noninterp_spec.
 
-(* (8) quantile(), interp = 1, every rational r in [0,1], n >= 2: with
+(* (8) quantile(), interp = 1, every rational r in [0,1], n >= 2, EVERY rank: with
    pp = r (n-1), p = floor(pp), w = pp - p: returns the p-th order statistic when
-   w = 0 and otherwise (1-w) a_p + w a_{p+1} - EXCEPT that for p = n-2 the value
-   a_p may have been replaced by a_{p+1} (see (4), (9)). *)
-Theorem quantile_interp_spec_partial :
+   w = 0 and otherwise (1-w) a_p + w a_{p+1}. *)
+Theorem quantile_interp_spec :
   forall (F : nat) (x : list Z) (r : Q),
   2 <= length x -> length x <= F -> (0 <= r)%Q -> (r <= 1)%Q ->
   let pp := (r * inject_Z (Z.of_nat (length x) - 1))%Q in
@@ -138,48 +122,30 @@ Theorem quantile_interp_spec_partial :
    ((0 < w)%Q /\ (p + 1 <= Z.of_nat (length x) - 1)%Z /\
     exists x' am aM q, quantile F x r true = Ok (x', QVal q) /\ Permutation x' x /\
       (q == (1 - w) * inject_Z am + w * inject_Z aM)%Q /\
-      is_kth x (S (Z.to_nat p)) aM /\
-      (is_kth x (Z.to_nat p) am \/ (p + 2 = Z.of_nat (length x))%Z /\ am = aM))).
+      is_kth x (Z.to_nat p) am /\ is_kth x (S (Z.to_nat p)) aM)).
 Proof.
   intros F x r Hn HF H0 H1 pp p w.
   destruct (ratio_scale r (Z.of_nat (length x) - 1) H0 H1 ltac:(lia)) as [A B].
   rewrite quantile_in_range by assumption.
   exact (quantile_pp_interp F x _ Hn HF A B).
 Qed.
-Print Assumptions quantile_interp_spec_partial.
-
-(* the same for ranks below the last pair: the fully correct interpolation *)
-Theorem quantile_interp_spec :
-  forall (F : nat) (x : list Z) (r : Q),
-  2 <= length x -> length x <= F -> (0 <= r)%Q -> (r <= 1)%Q ->
-  let pp := (r * inject_Z (Z.of_nat (length x) - 1))%Q in
-  let p := Qfloor pp in
-  let w := (pp - inject_Z p)%Q in
-  (0 < w)%Q -> (p + 2 < Z.of_nat (length x))%Z ->
-  exists x' am aM q, quantile F x r true = Ok (x', QVal q) /\ Permutation x' x /\
-      (q == (1 - w) * inject_Z am + w * inject_Z aM)%Q /\
-      is_kth x (Z.to_nat p) am /\ is_kth x (S (Z.to_nat p)) aM.
-Proof.
-  intros F x r Hn HF H0 H1 pp p w Hw Hp.
-  destruct (quantile_interp_spec_partial F x r Hn HF H0 H1) as (_ & _ & _ & [[E _]|(_ & _ & R)]).
-  - fold pp p w in E. lra.
-  - fold pp p w in R. destruct R as (x' & am & aM & q & R1 & R2 & R3 & R4 & R5).
-    exists x', am, aM, q. repeat split; try assumption; try apply R4.
-    + destruct R5 as [K|[K _] ]; [apply K|lia].
-    + destruct R5 as [K|[K _] ]; [apply K|lia].
-Qed.
 Print Assumptions quantile_interp_spec.
 
-(* (9) FINDING: median of [1;2] is 2, not 3/2 (and 0.75-quantile of [1;2;4;8] is 8, not 5). *)
-Theorem median_last_pair_refuted :
-  quantile 2 [1; 2]%Z (1 # 2) true = Ok ([1; 2]%Z, QVal 2) /\
-  is_kth [1; 2]%Z 0 1%Z /\ is_kth [1; 2]%Z 1 2%Z /\
-  quantile 4 [1; 2; 4; 8]%Z (3 # 4) true = Ok ([1; 2; 4; 8]%Z, QVal 8) /\
-  is_kth [1; 2; 4; 8]%Z 2 4%Z /\ is_kth [1; 2; 4; 8]%Z 3 8%Z.
-Proof.
-  repeat split; try (vm_compute; reflexivity); try (apply Nat.leb_le; vm_compute; reflexivity).
-Qed.
-Print Assumptions median_last_pair_refuted.
+(* (9) median(x) = quantile(x, 1/2, interp) is NumPy's median for every n >= 2: the
+   mean of the order statistics of ranks (n-1) div 2 and n div 2. *)
+Theorem median_spec :
+  forall (F : nat) (x : list Z), 2 <= length x -> length x <= F ->
+  let N := Z.of_nat (length x) in
+  exists x' lo hi q, quantile F x (1 # 2) true = Ok (x', QVal q) /\ Permutation x' x /\
+    is_kth x (Z.to_nat ((N - 1) / 2)) lo /\ is_kth x (Z.to_nat (N / 2)) hi /\
+    (q == (inject_Z lo + inject_Z hi) * (1 # 2))%Q.
+Proof. exact median_ok. Qed.
+Print Assumptions median_spec.
+
+Example median_last_pair :
+  quantile 2 [1; 2]%Z (1 # 2) true = Ok ([1; 2]%Z, QVal (3 # 2)) /\
+  quantile 4 [1; 2; 4; 8]%Z (3 # 4) true = Ok ([1; 2; 4; 8]%Z, QVal 5).
+Proof. split; vm_compute; reflexivity. Qed.
 
 (* (10) size == 1 returns the single element for every ratio in range. *)
 Theorem quantile_single :
@@ -243,7 +209,7 @@ Proof. repeat split; vm_compute; reflexivity. Qed.
 
 (* ================================================================ fff_blas.c *)
 (* ======================================================================== *)
-(* C16 / BLAS part - paste into coq/C16/Properties.v                        *)
+(* C16 / BLAS part - block for coq/C16/Properties.v                         *)
 (* needs:                                                                   *)
 (* ======================================================================== *)
 
@@ -302,48 +268,33 @@ Theorem blas_flag_swap_correct_dtrmm :
 Proof. exact flag_swap_dtrmm. Qed.
 Print Assumptions blas_flag_swap_correct_dtrmm.
 
-(* fff_blas_dsyrk, SQUARE A only: the Uplo triangle (row-major sense) of C becomes
-   alpha op(A) op(A)^T + beta C, the other triangle is untouched.
-   PARTIAL: for a non-square A the wrapper passes the wrong k (A->size1 for NoTrans, A->size2 for Trans: the
-   row count of op(A), not its column count) - see blas_dsyrk_kdim_refuted. *)
-Theorem blas_flag_swap_correct_dsyrk_partial :
+(* fff_blas_dsyrk: C is n x n, op(A) is n x k with ARBITRARY k (non-square A included): for every Uplo and
+   Trans (incl. ConjTrans) the Uplo triangle (row-major sense) of C becomes alpha op(A) op(A)^T + beta C and
+   the other triangle is untouched (SWAP_UPLO, SWAP_TRANS, n = C->size1, k = A->size2 / A->size1). *)
+Theorem blas_flag_swap_correct_dsyrk :
   forall (R : Type) (r0 r1 : R) (radd rmul rsub : R -> R -> R) (ropp : R -> R) (rdiv : R -> R -> R),
     ring_theory r0 r1 radd rmul rsub ropp eq ->
     forall (u t : cflag) (alpha beta : R) (A C : rmat R),
       uploflag u -> transflag t -> wfm R A -> wfm R C ->
-      rm_s1 A = rm_s2 A -> rm_s1 C = rm_s1 A -> rm_s2 C = rm_s1 A ->
+      rm_s1 C = rm_s2 C -> rm_s1 C = (if is_tr t then rm_s2 A else rm_s1 A) ->
       fff_call R r0 r1 radd rmul rsub rdiv fff_blas_dsyrk_call (env_dsyrk R u t alpha A beta C)
       = Some (OpC, doc_dsyrk R r0 radd rmul u t alpha A beta C).
-Proof. exact flag_swap_dsyrk_square. Qed.
-Print Assumptions blas_flag_swap_correct_dsyrk_partial.
+Proof. exact flag_swap_dsyrk. Qed.
+Print Assumptions blas_flag_swap_correct_dsyrk.
 
-(* same for fff_blas_dsyr2k (alpha op(A) op(B)^T + alpha op(B) op(A)^T + beta C); PARTIAL: square A, B only *)
-Theorem blas_flag_swap_correct_dsyr2k_partial :
+(* fff_blas_dsyr2k: same shapes (B shaped like A): alpha op(A) op(B)^T + alpha op(B) op(A)^T + beta C on the
+   Uplo triangle, other triangle untouched *)
+Theorem blas_flag_swap_correct_dsyr2k :
   forall (R : Type) (r0 r1 : R) (radd rmul rsub : R -> R -> R) (ropp : R -> R) (rdiv : R -> R -> R),
     ring_theory r0 r1 radd rmul rsub ropp eq ->
     forall (u t : cflag) (alpha beta : R) (A B C : rmat R),
       uploflag u -> transflag t -> wfm R A -> wfm R B -> wfm R C ->
-      rm_s1 A = rm_s2 A -> rm_s1 B = rm_s1 A -> rm_s2 B = rm_s1 A -> rm_s1 C = rm_s1 A -> rm_s2 C = rm_s1 A ->
+      rm_s1 B = rm_s1 A -> rm_s2 B = rm_s2 A ->
+      rm_s1 C = rm_s2 C -> rm_s1 C = (if is_tr t then rm_s2 A else rm_s1 A) ->
       fff_call R r0 r1 radd rmul rsub rdiv fff_blas_dsyr2k_call (env_dsyr2k R u t alpha A B beta C)
       = Some (OpC, doc_dsyr2k R r0 radd rmul u t alpha A B beta C).
-Proof. exact flag_swap_dsyr2k_square. Qed.
-Print Assumptions blas_flag_swap_correct_dsyr2k_partial.
-
-(* FINDING: with a 1 x 3 matrix A the call does not compute the documented A A^T *)
-Theorem blas_dsyrk_kdim_refuted :
-  exists (u t : cflag) (alpha beta : Z) (A C : zrmat),
-    rm_s1 C = rm_s2 C /\ rm_s1 C = (if is_tr t then rm_s2 A else rm_s1 A) /\
-    zcall_dsyrk u t alpha A beta C <> Some (OpC, zdoc_dsyrk u t alpha A beta C).
-Proof. exact dsyrk_kdim_refuted. Qed.
-Print Assumptions blas_dsyrk_kdim_refuted.
-
-Theorem blas_dsyr2k_kdim_refuted :
-  exists (u t : cflag) (alpha beta : Z) (A B C : zrmat),
-    rm_s1 C = rm_s2 C /\ rm_s1 C = (if is_tr t then rm_s2 A else rm_s1 A) /\
-    rm_s1 B = rm_s1 A /\ rm_s2 B = rm_s2 A /\
-    zcall_dsyr2k u t alpha A B beta C <> Some (OpC, zdoc_dsyr2k u t alpha A B beta C).
-Proof. exact dsyr2k_kdim_refuted. Qed.
-Print Assumptions blas_dsyr2k_kdim_refuted.
+Proof. exact flag_swap_dsyr2k. Qed.
+Print Assumptions blas_flag_swap_correct_dsyr2k.
 
 (* fff_blas_dtrsv / dtrsm: for every flag combination the call performs the documented ROW-MAJOR substitution
    (forward for an effectively lower, backward for an effectively upper op(T); division uninterpreted):
@@ -366,18 +317,22 @@ Theorem blas_flag_swap_correct_dtrsm :
 Proof. exact flag_swap_dtrsm. Qed.
 Print Assumptions blas_flag_swap_correct_dtrsm.
 
-(* the substitution used in doc_dtrsv/doc_dtrsm solves the lower-triangular system when the division is exact
-   on the diagonal.  PARTIAL: only the forward (lower) substitution; the backward one is the same algorithm on
-   reversed indices (solve_upper) and its "T x = b" statement, and the lifting to op(A) X = alpha B, are not proved. *)
-Theorem blas_trisolve_lower_solves_partial :
+(* the substitution used in doc_dtrsv/doc_dtrsm (trisolve) solves the triangular system when the division is
+   exact on the diagonal: row i of T x = b summed over the referenced triangle - columns n-1 down to i for the
+   back substitution (upper = true), columns 0..i for the forward substitution (upper = false). *)
+Theorem blas_trisolve_solves :
   forall (R : Type) (r0 r1 : R) (radd rmul rsub : R -> R -> R) (ropp : R -> R) (rdiv : R -> R -> R),
     ring_theory r0 r1 radd rmul rsub ropp eq ->
-    forall (T : fm R) (b : nat -> R) (n : nat),
+    forall (upper : bool) (T : fm R) (b : nat -> R) (n : nat),
       (forall (i : nat) (y : R), (i < n)%nat -> rmul (T i i) (rdiv y (T i i)) = y) ->
       forall i : nat, (i < n)%nat ->
-        sum_n R r0 radd (S i) (fun l : nat => rmul (T i l) (nth l (fwd R r0 radd rmul rsub rdiv T b n) r0)) = b i.
-Proof. exact fwd_solves_lower. Qed.
-Print Assumptions blas_trisolve_lower_solves_partial.
+        (if upper
+         then sum_n R r0 radd (n - i)
+                (fun m : nat => rmul (T i (n - 1 - m)%nat) (trisolve R r0 radd rmul rsub rdiv true n T b (n - 1 - m)%nat))
+         else sum_n R r0 radd (S i)
+                (fun l : nat => rmul (T i l) (trisolve R r0 radd rmul rsub rdiv false n T b l))) = b i.
+Proof. exact trisolve_solves. Qed.
+Print Assumptions blas_trisolve_solves.
 
 (* non-vacuity: concrete flag combinations evaluated on small Z matrices through the GENERATED table *)
 Example blas_dgemm_example :     (* A^T B^T with A 3x2, B 2x3 *)
@@ -395,10 +350,21 @@ Example blas_dtrsm_example :     (* Left, Upper, NoTrans, NonUnit: [[1 2][0 -1]]
   = Some (OpB, [19; 22; -7; -8]%Z).
 Proof. vm_compute. reflexivity. Qed.
 
-Example blas_dsyrk_example :     (* Upper, Trans, square: upper triangle of A^T A, lower entry 7 untouched *)
-  zcall_dsyrk CblasUpper CblasTrans 1%Z (zm 2 2 [1; 2; 3; 4]%Z) 0%Z (zm 2 2 [0; 0; 7; 0]%Z)
-  = Some (OpC, [10; 14; 7; 20]%Z).
+Example blas_dsyrk_nonsquare_example :   (* A = [1 2 3] (1 x 3), NoTrans: A A^T = 14, and it is the documented value *)
+  zcall_dsyrk CblasUpper CblasNoTrans 1%Z (zm 1 3 [1; 2; 3]%Z) 0%Z (zm 1 1 [0%Z]) = Some (OpC, [14%Z])
+  /\ zdoc_dsyrk CblasUpper CblasNoTrans 1%Z (zm 1 3 [1; 2; 3]%Z) 0%Z (zm 1 1 [0%Z]) = [14%Z].
+Proof. exact dsyrk_nonsquare_example. Qed.
+
+Example blas_dsyrk_trans_example :       (* Upper, Trans, A 3 x 2: upper triangle of A^T A, lower entry 7 untouched *)
+  zcall_dsyrk CblasUpper CblasTrans 1%Z (zm 3 2 [1; 2; 3; 4; 5; 6]%Z) 0%Z (zm 2 2 [0; 0; 7; 0]%Z)
+  = Some (OpC, [35; 44; 7; 56]%Z).
 Proof. vm_compute. reflexivity. Qed.
+
+Example blas_dsyr2k_nonsquare_example :  (* Lower, Trans, A = [1;2], B = [3;4] (2 x 1): A^T B + B^T A = 22 *)
+  zcall_dsyr2k CblasLower CblasTrans 1%Z (zm 2 1 [1; 2]%Z) (zm 2 1 [3; 4]%Z) 0%Z (zm 1 1 [0%Z]) = Some (OpC, [22%Z])
+  /\ zdoc_dsyr2k CblasLower CblasTrans 1%Z (zm 2 1 [1; 2]%Z) (zm 2 1 [3; 4]%Z) 0%Z (zm 1 1 [0%Z]) = [22%Z].
+Proof. exact dsyr2k_nonsquare_example. Qed.
+
 
 (* ================================================================ cubic_spline.c *)
 Section SplineProperties.
